@@ -26,8 +26,106 @@ Keywords == {"ALL","AND","ANY","ARRAY","AS","ASC","ASSERT_ROWS_MODIFIED","AT","B
   "OF","ON","OR","ORDER","OUTER","OVER","PARTITION","PRECEDING","PROTO","RANGE","RECURSIVE","RESPECT","RIGHT",
   "ROLLUP","ROWS","SELECT","SET","SOME","STRUCT","TABLESAMPLE","THEN","TO","TREAT","TRUE","UNBOUNDED","UNION",
   "UNNEST","USING","WHEN","WHERE","WINDOW","WITH","WITHIN"}
-KwBytes == {Bytes(k) : k \in Keywords}
-KwName(bs) == CHOOSE k \in Keywords : Bytes(k) = bs
+\* The same table as byte sequences (written out: TLC evaluates the set comprehension lazily and would
+\* rebuild it on every membership test).  The ASSUME ties it to Keywords.
+KwBytes == {
+  <<65,76,76>>,
+  <<65,78,68>>,
+  <<65,78,89>>,
+  <<65,82,82,65,89>>,
+  <<65,83>>,
+  <<65,83,67>>,
+  <<65,83,83,69,82,84,95,82,79,87,83,95,77,79,68,73,70,73,69,68>>,
+  <<65,84>>,
+  <<66,69,84,87,69,69,78>>,
+  <<66,89>>,
+  <<67,65,83,69>>,
+  <<67,65,83,84>>,
+  <<67,79,76,76,65,84,69>>,
+  <<67,79,78,84,65,73,78,83>>,
+  <<67,82,69,65,84,69>>,
+  <<67,82,79,83,83>>,
+  <<67,85,66,69>>,
+  <<67,85,82,82,69,78,84>>,
+  <<68,69,70,65,85,76,84>>,
+  <<68,69,70,73,78,69>>,
+  <<68,69,83,67>>,
+  <<68,73,83,84,73,78,67,84>>,
+  <<69,76,83,69>>,
+  <<69,78,68>>,
+  <<69,78,85,77>>,
+  <<69,83,67,65,80,69>>,
+  <<69,88,67,69,80,84>>,
+  <<69,88,67,76,85,68,69>>,
+  <<69,88,73,83,84,83>>,
+  <<69,88,84,82,65,67,84>>,
+  <<70,65,76,83,69>>,
+  <<70,69,84,67,72>>,
+  <<70,79,76,76,79,87,73,78,71>>,
+  <<70,79,82>>,
+  <<70,82,79,77>>,
+  <<70,85,76,76>>,
+  <<71,82,65,80,72,95,84,65,66,76,69>>,
+  <<71,82,79,85,80>>,
+  <<71,82,79,85,80,73,78,71>>,
+  <<71,82,79,85,80,83>>,
+  <<72,65,83,72>>,
+  <<72,65,86,73,78,71>>,
+  <<73,71,78,79,82,69>>,
+  <<73,70>>,
+  <<73,78>>,
+  <<73,78,78,69,82>>,
+  <<73,78,84,69,82,83,69,67,84>>,
+  <<73,78,84,69,82,86,65,76>>,
+  <<73,78,84,79>>,
+  <<73,83>>,
+  <<74,79,73,78>>,
+  <<76,65,84,69,82,65,76>>,
+  <<76,69,70,84>>,
+  <<76,73,75,69>>,
+  <<76,73,77,73,84>>,
+  <<76,79,79,75,85,80>>,
+  <<77,69,82,71,69>>,
+  <<78,65,84,85,82,65,76>>,
+  <<78,69,87>>,
+  <<78,79>>,
+  <<78,79,84>>,
+  <<78,85,76,76>>,
+  <<78,85,76,76,83>>,
+  <<79,70>>,
+  <<79,78>>,
+  <<79,82>>,
+  <<79,82,68,69,82>>,
+  <<79,85,84,69,82>>,
+  <<79,86,69,82>>,
+  <<80,65,82,84,73,84,73,79,78>>,
+  <<80,82,69,67,69,68,73,78,71>>,
+  <<80,82,79,84,79>>,
+  <<82,65,78,71,69>>,
+  <<82,69,67,85,82,83,73,86,69>>,
+  <<82,69,83,80,69,67,84>>,
+  <<82,73,71,72,84>>,
+  <<82,79,76,76,85,80>>,
+  <<82,79,87,83>>,
+  <<83,69,76,69,67,84>>,
+  <<83,69,84>>,
+  <<83,79,77,69>>,
+  <<83,84,82,85,67,84>>,
+  <<84,65,66,76,69,83,65,77,80,76,69>>,
+  <<84,72,69,78>>,
+  <<84,79>>,
+  <<84,82,69,65,84>>,
+  <<84,82,85,69>>,
+  <<85,78,66,79,85,78,68,69,68>>,
+  <<85,78,73,79,78>>,
+  <<85,78,78,69,83,84>>,
+  <<85,83,73,78,71>>,
+  <<87,72,69,78>>,
+  <<87,72,69,82,69>>,
+  <<87,73,78,68,79,87>>,
+  <<87,73,84,72>>,
+  <<87,73,84,72,73,78>>}
+ASSUME KwBytes = {Bytes(k) : k \in Keywords}
 
 IsDigit(c)   == c >= 48 /\ c <= 57
 IsOctal(c)   == c >= 48 /\ c <= 55
@@ -193,7 +291,7 @@ Token(b, s, dot, prevDot) ==
        [kind |-> IF ~r.ok THEN "<err>" ELSE IF p.bytes THEN "<bytes>" ELSE "<string>", end |-> r.end, val |-> r.val, base |-> 0, dotNext |-> FALSE]
   ELSE IF IsIdStart(c) THEN
        LET e == ScanWhileIdPart(b, s) raw == SubSeq(b, s, e - 1) up == UpSeq(raw) IN
-       IF up \in KwBytes THEN [kind |-> KwName(up), end |-> e, val |-> <<>>, base |-> 0, dotNext |-> FALSE]
+       IF up \in KwBytes THEN [kind |-> "kw", end |-> e, val |-> up, base |-> 0, dotNext |-> FALSE]   \* reserved word: kind "kw", value = upper-cased spelling
        ELSE [kind |-> "<ident>", end |-> e, val |-> raw, base |-> 0, dotNext |-> FALSE]
   ELSE IF c \in Punct1 THEN [kind |-> "p1", end |-> s + 1, val |-> <<c>>, base |-> 0, dotNext |-> FALSE]
   ELSE [kind |-> "<err>", end |-> s, val |-> <<>>, base |-> 0, dotNext |-> FALSE]
@@ -237,6 +335,15 @@ StepState(b, st) == \* successor state after a successful panic-mode step
       t  == Token(b, tr.start, st.dot, st.prevDot)
       r  == StepTok(b, st) IN
   [pos |-> r.e, dot |-> t.dotNext, prevDot |-> MakesDot(t), tok |-> r]
+
+\* token and successor state in one evaluation (used by ParserTrace on every Tok event)
+StepFull(b, st) ==
+  LET tr == Trivia(b, st.pos + 1, <<>>) IN
+  IF ~tr.ok THEN [tok |-> [k |-> "<err>", p |-> tr.start - 1, e |-> Len(b), v |-> <<>>, bs |-> 0, nc |-> Len(tr.comments), cs |-> tr.comments],
+                  dot |-> FALSE]
+  ELSE LET t == Token(b, tr.start, st.dot, st.prevDot) IN
+       [tok |-> [k |-> t.kind, p |-> tr.start - 1, e |-> t.end - 1, v |-> t.val, bs |-> t.base, nc |-> Len(tr.comments), cs |-> tr.comments],
+        dot |-> t.dotNext]
 
 \* What any <bad> token returned by the recovery-mode step at state st must satisfy.
 BadExtentOK(b, st, p, e) ==
